@@ -2,4 +2,4 @@
 export CGV_REPO=$VP_RUN_REPO CGSMILES_REPO=$VP_RUN_REPO PBR_VERSION=0
 git -C $VP_RUN_REPO status --short | head -3
 ./setup.sh > setup.log 2>&1; tail -2 setup.log
-for n in $(ls seeded | grep -E "^(C04|C05|C08|C13|C14|C20)-"); do /venv/bin/python harness/seeded.py run $n quick 2>&1 | grep -v conda | tail -1 | cut -c1-200; done
+for n in $(ls seeded | grep -E "^(C04|C15)-"); do /venv/bin/python harness/seeded.py run $n quick 2>&1 | grep -v conda | tail -1 | cut -c1-200; done
